@@ -33,7 +33,10 @@ def arg_tuples(rng, fn, quick):
     space = {"s": S, "i": counts, "l": lists}
     if fn == "TrimSpace":
         S2 = strings_upto(" \ta", 4 if quick else 5)
-        return [(s,) for s in S2]
+        # every white-space character Go's TrimSpace knows in ASCII, on both sides and in the middle
+        ws = [" ", "\t", "\n", "\v", "\f", "\r"]
+        extra = [w + "x" + w2 for w in ws for w2 in ws] + [w + w2 + "a b" + w2 + w for w in ws for w2 in ws] + ["a" + w + "b" for w in ws] + ws
+        return [(s,) for s in S2 + extra]
     dims = [space[p] for p in params]
     if params == "ss":
         # first argument full, second argument up to length 2 (3 in thorough)
@@ -80,7 +83,7 @@ def expected_lines(fn, goline):
     for part in goline.split(" "):
         k, v = part.split(":", 1)
         if k == "s":
-            outs.append("[" + bytes.fromhex(v).decode() + "]")
+            outs += ("[" + bytes.fromhex(v).decode() + "]").split("\n")      # a value with a line feed prints as several lines
         elif k == "i":
             outs.append(v)
         elif k == "b":
@@ -88,7 +91,8 @@ def expected_lines(fn, goline):
         elif k == "l":
             elems = [] if v == "-" else [bytes.fromhex(e).decode() for e in v.split(",")]
             outs.append(str(len(elems)))
-            outs += ["[" + e + "]" for e in elems]
+            for e in elems:
+                outs += ("[" + e + "]").split("\n")
     return outs
 
 
